@@ -15,7 +15,7 @@ LEVEL_TEXT = ("Static structural proof of necessary conditions: (R11.1) every fu
               "absent table entry or conversion result is passed to float(), used arithmetically or dereferenced "
               "without a dominating None test. Which spellings are accepted, numeric values, linearity and prefix "
               "units are NOT decided.")
-LEVEL_EXTRA = 'Added after the seeded evaluation: (R11.3) number-then-unit is accepted only for non-prefix units and unit-then-number only for prefix units (complementary tests of unitPrefix); (R11.4) unit and prefix conversion factors are parsed by the same chain; (R11.5) a prefix name is never case-folded.'
+LEVEL_EXTRA = 'Added after the seeded evaluation: (R11.3) number-then-unit is accepted only for non-prefix units and unit-then-number only for prefix units (complementary tests of unitPrefix); (R11.4) unit and prefix conversion factors are parsed by the same chain; (R11.5) a prefix name is never case-folded. (R11.6) a number obtained with float()/int() is never tested for truthiness.'
 
 
 def run(ctx):
@@ -161,6 +161,41 @@ def run(ctx):
                               % norm(c)[:50])
         ctx.ok("R11.5", "%s: prefix names of %s used as declared" % (f.short, sorted(targets)), loc(f, f.node))
     ctx.floor("R11.5", "iterations over a unit's prefixes", n_iter, 1)
+
+    # ---------------- R11.6: zero is a number
+    ctx.rule("R11.6", "a value converted with float()/int() is never tested for truthiness (0 is a valid number)")
+
+    def truthy_names(t):
+        if isinstance(t, ast.Name):
+            return [t]
+        if isinstance(t, ast.BoolOp):
+            return [y for v_ in t.values for y in truthy_names(v_)]
+        if isinstance(t, ast.UnaryOp) and isinstance(t.op, ast.Not):
+            return truthy_names(t.operand)
+        return []
+    n_num = 0
+    for f in prog.functions.values():
+        if f.module.name not in ("hed.models.hed_tag", "hed.schema.hed_schema_entry", "hed.validator.util.class_util"):
+            continue
+        convs = [x for x in walk_no_nested(f.node) if isinstance(x, ast.Assign) and isinstance(x.value, ast.Call)
+                 and isinstance(x.value.func, ast.Name) and x.value.func.id in ("float", "int")]
+        n_num += sum(1 for x in walk_no_nested(f.node) if isinstance(x, ast.Call) and isinstance(x.func, ast.Name) and x.func.id in ("float", "int"))
+        if not convs:
+            continue
+        rdf = ReachingDefs(f)
+        for x in walk_no_nested(f.node):
+            tests = [x.test] if isinstance(x, (ast.If, ast.While, ast.IfExp, ast.Assert)) else []
+            for t in tests:
+                for nm in truthy_names(t):
+                    defs = rdf.at(x if isinstance(x, ast.stmt) else nm, nm.id) or []
+                    if any(d.kind == "assign" and any(d.node is c_ for c_ in convs) for d in defs):
+                        ctx.saw(f)
+                        ctx.violation("R11.6", f.qualname, t, loc(f, x),
+                                      "`%s` holds the result of float()/int() and is tested for truthiness in `%s`: the number 0 takes the "
+                                      "'no value' branch, so `Distance/0 m` has no value in default units and the conversion is not linear"
+                                      % (nm.id, norm(t)[:50]))
+    ctx.ok("R11.6", "%d float()/int() conversions in the unit code: no converted number is tested for truthiness" % n_num, "")
+    ctx.floor("R11.6", "numeric conversions in the unit code", n_num, 3)
 
     # ---------------- R11.2
     entries = [tag.methods.get("value_as_default_unit"), tag.methods.get("default_unit"), conv, val]
